@@ -697,11 +697,20 @@ func checkC13(r *core.Run) {
 	{
 		ord := fGetOrder + "(*)#0"
 		sh := "order/keeper.Keeper.GetShard(elem(*" + ord + ".Shards))"
+		// the for-all is decided where the per-shard loop sits in Renew itself; moved into nested helpers or a function
+		// value it is not followed: not decided rather than asserted either way
+		prevOpaque := r.Opaque
+		if rf := r.Func("G-renew-shards", "sao/keeper.msgServer.Renew"); rf != nil && len(callsIn(r, rf, "order/keeper.Keeper.GetShard")) == 0 {
+			r.Opaque = func(string) string {
+				return "the per-shard validation is not in Renew's own body (it was moved into helpers or a function value): a for-all established two helper levels down, or behind a variable, is not followed"
+			}
+		}
 		evalGuard(r, "G-renew-shards", "sao/keeper.msgServer.Renew", effSel{Calls: []string{"order/keeper.Keeper.RenewOrder"}}, []clause{
 			cl("every-listed-shard-is-completed-or-migrating", guard.ForAll("*"+ord+".Shards",
 				guard.Eq("*"+sh+"#0.Status", constVal(r, "order/types", "ShardCompleted")),
 				guard.Eq("*"+sh+"#0.Status", constVal(r, "order/types", "ShardMigrating")))),
 		}, 1)
+		r.Opaque = prevOpaque
 	}
 	r.Assume(aDeps)
 	r.Assume(aCG)
